@@ -49,6 +49,8 @@ func run(r *mc.Run) {
 	fileIds(r)
 	idxEntries(r)
 	superBlocks(r)
+	// the same index-entry domain in the 5-byte-offset build (offsets up to 8 TiB)
+	r.ParallelExe(os.Getenv("VERIF_BIN_core5"), "5byte", 1, func(shard, n int) { idxEntries(r) })
 }
 
 func replayOne(r *mc.Run, domain, in string) {
